@@ -38,7 +38,7 @@ func init() {
 	operand[0x0A] = 4  // PUSHA
 	operand[0x0B] = 0  // PUSHNULL
 	operand[0x0C], operand[0x0D], operand[0x0E] = pfx1, pfx2, pfx4
-	set(0, 0x0F, 0x21) // PUSHM1..PUSH16, NOP
+	set(0, 0x0F, 0x21)              // PUSHM1..PUSH16, NOP
 	for i := 0x22; i <= 0x35; i++ { // JMP..JMPLE and CALL: short, long alternating
 		if i%2 == 0 {
 			operand[i] = 1
@@ -46,8 +46,8 @@ func init() {
 			operand[i] = 4
 		}
 	}
-	operand[0x36] = 0 // CALLA
-	operand[0x37] = 2 // CALLT
+	operand[0x36] = 0  // CALLA
+	operand[0x37] = 2  // CALLT
 	set(0, 0x38, 0x3A) // ABORT ASSERT THROW
 	operand[0x3B] = 2  // TRY
 	operand[0x3C] = 8  // TRY_L
